@@ -110,13 +110,22 @@ CHECKS.append(
               "round trip.",
          note="Trusted: json-ld/json-syntax; the invariants written in the audited table of rules/c12.py.",
          technique="static: switch-table extraction + path enumeration + MIR panic-site audit"))
+CHECKS.append(
+    dict(id="C11", level="other", engine="E1+E3",
+         text="Forwarding shape of every method of the four view adapters against an audited table: one call into the wrapped "
+              "store, the named target method, own s/p/o parameters in place, the view's graph selector in the graph position, "
+              "only into_triple/into_quad/map_err on the way back, default-graph guard dominating GraphAsDataset's forwards; and "
+              "the set of overridden trait methods equals the audited set. Decides the per-method forwarding clause, not "
+              "coherence over histories.",
+         note="Trusted: rustc MIR (resolved callees, argument provenance). Coherence over histories relies on C01.",
+         technique="static: forwarding-wrapper rule over MIR (callee, argument provenance, guard dominance, override set)"))
 NOT_APPLICABLE = [
     dict(property_id="C17", reason="relativise/resolve inverse is an equation between runtime-computed strings "
          "(byte-offset arithmetic); no structural clause that is a genuine necessary condition without freezing the "
          "code; static analysis in reach cannot decide it"),
 ]
 # properties not yet wired in this commit are listed as not applicable *for now* by gen (see below)
-PENDING = ["C01", "C02", "C05", "C06", "C07", "C11", "C14",
+PENDING = ["C01", "C02", "C05", "C06", "C07", "C14",
            ]
 for p in PENDING:
     if p not in [c["id"] for c in CHECKS]:
